@@ -465,6 +465,24 @@ def ref_address(rows, cols, item):
 # tolerances (DESIGN.md section 4)
 
 K = 4.0
+
+
+def round_conc(v) -> float:
+    """A stated concentration as the library keeps it: rounded to the internal precision, in significant digits below 1."""
+    p = cfg().internal_precision
+    if v != 0 and abs(v) < 1 and math.isfinite(v):
+        p -= math.floor(math.log10(abs(v))) + 1
+    return round(v, p)
+
+
+def conc_quantum(c) -> float:
+    """Resolution of a stated concentration (value in its base-unit ratio): the internal precision in decimals for values of
+    1 and above, the same number of *significant* digits below (fix 'a parsed concentration keeps ten significant digits')."""
+    cf = cfg()
+    c = abs(c)
+    if c == 0 or c >= 1 or not math.isfinite(c):
+        return cf.q
+    return cf.q * 10.0 ** (math.floor(math.log10(c)) + 1)
 EPS = 2.220446049250313e-16
 
 
